@@ -20,6 +20,12 @@ or absent) and every filter combination.
   records it scanned.
 * `overlap_unsound` — with overlapping offset ranges across segments (what C02's defect can
   produce) the derived `MaxOffset` is wrong and a matching row is dropped (cross reference).
+* faults (`selectF`: listing error, context cancellation / `Decode` error per listing position):
+  `selectF_ok_eq_select`, `select_ok_eq_direct` (a query that completes under ANY fault oracle
+  returns exactly the direct result), `selectF_clean` (faults off the candidate set do not fail
+  the query), `selectF_err_of_candidate_fault` (ORDER BY / TAIL: a fault on any candidate fails
+  the query), `cached_ok_eq_direct` (histories through `handleSelectWithCache`: a faulted query
+  never poisons a later one), `select_ok_over_listing`.
 -/
 namespace KafVerif.SqlFilter
 
@@ -595,5 +601,275 @@ example : WellFormedObjs [⟨0, 0, 0, true, [(0, 10), (2, 11)], none⟩, ⟨0, 0
       (try rcases hp with rfl | rfl) <;> (try subst hp) <;> simp
   · simp [sameTP]
 
+/-! ### faults -/
+
+theorem select_eq_finish (q : Query) (segs : List SegRef) :
+    select q segs = finishRows q ((filterSegments q segs).foldl (segmentStep q) ⟨[], [], [], false⟩) := rfl
+
+theorem candidatesFrom_fst (q : Query) (segs : List SegRef) : ∀ i,
+    (candidatesFrom q segs i).map Prod.fst = filterSegments q segs := by
+  induction segs with
+  | nil => intro i; rfl
+  | cons s rest ih =>
+    intro i
+    unfold candidatesFrom filterSegments
+    by_cases h : segmentSelected q s = true
+    · simp only [h, if_true, List.map_cons, List.filter_cons]
+      rw [ih (i + 1)]; rfl
+    · have h' : segmentSelected q s = false := by simpa using h
+      simp only [h', Bool.false_eq_true, if_false, List.filter_cons]
+      rw [ih (i + 1)]; rfl
+
+theorem segmentStep_done (q : Query) (st : Loop) (s : SegRef) (hd : st.done = true) : segmentStep q st s = st :=
+  loop_done q s.recs st hd
+
+theorem foldF_failed (q : Query) (fault : Nat → Bool) (cands : List (SegRef × Nat)) (st : Loop) :
+    cands.foldl (segmentStepF q fault) (st, true) = (st, true) := by
+  induction cands with
+  | nil => rfl
+  | cons c rest ih => simp [List.foldl_cons, segmentStepF, ih]
+
+/-- a run of the segment loop that did not fail went through exactly the un-faulted loop -/
+theorem foldF_ok (q : Query) (fault : Nat → Bool) (cands : List (SegRef × Nat)) : ∀ (st : Loop),
+    (cands.foldl (segmentStepF q fault) (st, false)).2 = false →
+    (cands.foldl (segmentStepF q fault) (st, false)).1 = (cands.map Prod.fst).foldl (segmentStep q) st := by
+  induction cands with
+  | nil => intro st _; rfl
+  | cons c rest ih =>
+    intro st h
+    rw [List.foldl_cons] at h ⊢
+    simp only [List.map_cons, List.foldl_cons]
+    by_cases hd : st.done = true
+    · have hs : segmentStepF q fault (st, false) c = (st, false) := by simp [segmentStepF, hd]
+      rw [hs] at h ⊢
+      rw [segmentStep_done q st c.1 hd]
+      exact ih st h
+    · have hd' : st.done = false := by simpa using hd
+      by_cases hf : fault c.2 = true
+      · have hs : segmentStepF q fault (st, false) c = (st, true) := by simp [segmentStepF, hd', hf]
+        rw [hs, foldF_failed] at h
+        simp at h
+      · have hf' : fault c.2 = false := by simpa using hf
+        have hs : segmentStepF q fault (st, false) c = (segmentStep q st c.1, false) := by
+          simp [segmentStepF, hd', hf']
+        rw [hs] at h ⊢
+        exact ih _ h
+
+/-- faults that hit no candidate leave the loop untouched -/
+theorem foldF_clean (q : Query) (fault : Nat → Bool) (cands : List (SegRef × Nat)) : ∀ (st : Loop),
+    (∀ p ∈ cands, fault p.2 = false) →
+    cands.foldl (segmentStepF q fault) (st, false) = ((cands.map Prod.fst).foldl (segmentStep q) st, false) := by
+  induction cands with
+  | nil => intro st _; rfl
+  | cons c rest ih =>
+    intro st h
+    have hc := h c (by simp)
+    have hrest : ∀ p ∈ rest, fault p.2 = false := fun p hp => h p (List.mem_cons_of_mem _ hp)
+    simp only [List.foldl_cons, List.map_cons]
+    by_cases hd : st.done = true
+    · have hs : segmentStepF q fault (st, false) c = (st, false) := by simp [segmentStepF, hd]
+      rw [hs, segmentStep_done q st c.1 hd]
+      exact ih st hrest
+    · have hd' : st.done = false := by simpa using hd
+      have hs : segmentStepF q fault (st, false) c = (segmentStep q st c.1, false) := by
+        simp [segmentStepF, hd', hc]
+      rw [hs]
+      exact ih _ hrest
+
+/-- **C36 (faults, refinement).** Whatever the fault oracle: a query that completes sent exactly
+the rows of the un-faulted `handleSelect`. -/
+theorem _root_.KafVerif.C36.selectF_ok_eq_select (q : Query) (segs : List SegRef) (lf : Bool) (fault : Nat → Bool)
+    (rows : List Rec) (h : selectF q segs lf fault = some rows) : rows = select q segs := by
+  unfold selectF at h
+  cases lf with
+  | true => simp at h
+  | false =>
+    simp only [Bool.false_eq_true, if_false] at h
+    split at h
+    · simp at h
+    · rename_i hok
+      have hok' : ((candidatesFrom q segs 0).foldl (segmentStepF q fault) (⟨[], [], [], false⟩, false)).2 = false := by
+        simpa using hok
+      simp only [Option.some.injEq] at h
+      rw [← h, foldF_ok q fault _ _ hok', candidatesFrom_fst, select_eq_finish]
+
+/-- **C36 (faults).** For every segment list with sound statistics, every query and EVERY fault
+oracle (listing error; context cancellation / `Decode` error per listing position): if the
+query completes, its rows are exactly the direct filtering of ALL the topic's records — a fault
+can only turn the answer into an error, never into a partial result. -/
+theorem _root_.KafVerif.C36.select_ok_eq_direct (q : Query) (segs : List SegRef)
+    (hs : ∀ s ∈ segs, StatsSound s) (hp : ∀ s ∈ segs, PartitionSound s) (hl : 0 < q.limit)
+    (lf : Bool) (fault : Nat → Bool) (rows : List Rec) (h : selectF q segs lf fault = some rows) :
+    rows = direct q segs := by
+  rw [KafVerif.C36.selectF_ok_eq_select q segs lf fault rows h]
+  exact KafVerif.C36.select_eq_direct q segs hs hp hl
+
+/-- **C36 (faults, liveness side).** Faults that hit no candidate segment (segments skipped by
+partition / statistics, other topics) do not fail the query: it completes with the full result. -/
+theorem _root_.KafVerif.C36.selectF_clean (q : Query) (segs : List SegRef) (fault : Nat → Bool)
+    (h : ∀ p ∈ candidatesFrom q segs 0, fault p.2 = false) :
+    selectF q segs false fault = some (select q segs) := by
+  unfold selectF
+  simp only [Bool.false_eq_true, if_false]
+  rw [foldF_clean q fault _ _ h, candidatesFrom_fst, select_eq_finish]
+  simp
+
+/-- in ORDER BY / TAIL mode the loop never returns early -/
+theorem recordStep_not_done (q : Query) (hm : q.order.isSome = true ∨ 0 < q.tail) (st : Loop) (r : Rec)
+    (hd : st.done = false) : (recordStep q st r).done = false := by
+  unfold recordStep
+  rcases hm with ho | ht
+  · simp only [hd, ho, if_true, Bool.false_eq_true, if_false]
+    split <;> first | exact hd | rfl
+  · have ht' : q.tail > 0 := ht
+    simp only [hd, ht', Bool.false_eq_true, if_false, if_true]
+    split
+    · exact hd
+    · split <;> first | exact hd | rfl
+
+theorem segmentStep_not_done (q : Query) (hm : q.order.isSome = true ∨ 0 < q.tail) (s : SegRef) : ∀ (st : Loop),
+    st.done = false → (segmentStep q st s).done = false := by
+  unfold segmentStep
+  induction s.recs with
+  | nil => intro st h; exact h
+  | cons r rest ih => intro st h; exact ih _ (recordStep_not_done q hm st r h)
+
+theorem foldF_fault (q : Query) (hm : q.order.isSome = true ∨ 0 < q.tail) (fault : Nat → Bool)
+    (cands : List (SegRef × Nat)) : ∀ (st : Loop), st.done = false →
+    (∃ p ∈ cands, fault p.2 = true) → (cands.foldl (segmentStepF q fault) (st, false)).2 = true := by
+  induction cands with
+  | nil => intro st _ h; simp at h
+  | cons c rest ih =>
+    intro st hd h
+    rw [List.foldl_cons]
+    by_cases hf : fault c.2 = true
+    · have hs : segmentStepF q fault (st, false) c = (st, true) := by simp [segmentStepF, hd, hf]
+      rw [hs, foldF_failed]
+    · have hf' : fault c.2 = false := by simpa using hf
+      have hs : segmentStepF q fault (st, false) c = (segmentStep q st c.1, false) := by
+        simp [segmentStepF, hd, hf']
+      rw [hs]
+      apply ih _ (segmentStep_not_done q hm c.1 st hd)
+      obtain ⟨p, hp, hpf⟩ := h
+      rcases List.mem_cons.mp hp with rfl | hp
+      · rw [hf'] at hpf; simp at hpf
+      · exact ⟨p, hp, hpf⟩
+
+/-- **C36 (faults, no silent skip).** An ORDER BY or TAIL query reads every candidate segment: a
+fault on any candidate fails it (it is never answered from the remaining segments). -/
+theorem _root_.KafVerif.C36.selectF_err_of_candidate_fault (q : Query) (segs : List SegRef)
+    (hm : q.order.isSome = true ∨ 0 < q.tail) (lf : Bool) (fault : Nat → Bool)
+    (h : ∃ p ∈ candidatesFrom q segs 0, fault p.2 = true) : selectF q segs lf fault = none := by
+  unfold selectF
+  cases lf with
+  | true => simp
+  | false =>
+    simp only [Bool.false_eq_true, if_false]
+    rw [foldF_fault q hm fault _ _ rfl h]
+    simp
+
+/-! ### the result cache -/
+
+/-- every cached entry is the un-faulted answer of its query -/
+def CacheSound {κ : Type} (segs : List SegRef) (qOf : κ → Query) (c : List (κ × List Rec)) : Prop :=
+  ∀ e ∈ c, e.2 = select (qOf e.1) segs
+
+theorem lookupKey_mem {κ : Type} [DecidableEq κ] (k : κ) (c : List (κ × List Rec)) (rows : List Rec)
+    (h : lookupKey k c = some rows) : (k, rows) ∈ c := by
+  induction c with
+  | nil => simp [lookupKey] at h
+  | cons e rest ih =>
+    obtain ⟨k', r'⟩ := e
+    unfold lookupKey at h
+    by_cases hk : k' = k
+    · simp only [hk, if_true, Option.some.injEq] at h
+      subst h; subst hk; simp
+    · simp only [hk, if_false] at h
+      exact List.mem_cons_of_mem _ (ih h)
+
+/-- one query through the caching handler keeps the cache sound, and a completed answer is the
+un-faulted answer — also when it was served from the cache, also after faulted queries -/
+theorem cachedSelect_sound {κ : Type} [DecidableEq κ] (segs : List SegRef) (qOf : κ → Query) (cacheable : κ → Bool)
+    (c : List (κ × List Rec)) (hc : CacheSound segs qOf c) (k : κ) (lf : Bool) (fault : Nat → Bool) :
+    CacheSound segs qOf (cachedSelect segs qOf cacheable c k lf fault).1 ∧
+    ∀ rows, (cachedSelect segs qOf cacheable c k lf fault).2 = some rows → rows = select (qOf k) segs := by
+  unfold cachedSelect
+  by_cases hk : cacheable k = true
+  · simp only [hk, if_true]
+    cases hl : lookupKey k c with
+    | some rows0 =>
+      refine ⟨hc, ?_⟩
+      intro rows hr
+      simp only [Option.some.injEq] at hr
+      subst hr
+      exact hc (k, rows0) (lookupKey_mem k c rows0 hl)
+    | none =>
+      cases hsel : selectF (qOf k) segs lf fault with
+      | none => exact ⟨hc, fun rows hr => by simp at hr⟩
+      | some rows0 =>
+        have := KafVerif.C36.selectF_ok_eq_select (qOf k) segs lf fault rows0 hsel
+        refine ⟨?_, ?_⟩
+        · intro e he
+          rcases List.mem_cons.mp he with rfl | he
+          · exact this
+          · exact hc e he
+        · intro rows hr
+          simp only [Option.some.injEq] at hr
+          subst hr; exact this
+  · have hk' : cacheable k = false := by simpa using hk
+    simp only [hk', Bool.false_eq_true, if_false]
+    exact ⟨hc, fun rows hr => KafVerif.C36.selectF_ok_eq_select (qOf k) segs lf fault rows hr⟩
+
+theorem runCached_sound {κ : Type} [DecidableEq κ] (segs : List SegRef) (qOf : κ → Query) (cacheable : κ → Bool)
+    (ops : List (FQuery κ)) : ∀ (c : List (κ × List Rec)), CacheSound segs qOf c →
+    ∀ p ∈ ops.zip (runCached segs qOf cacheable ops c), ∀ rows, p.2 = some rows → rows = select (qOf p.1.key) segs := by
+  induction ops with
+  | nil => intro c _ p hp; simp [runCached] at hp
+  | cons x rest ih =>
+    intro c hc p hp rows hr
+    have hstep := cachedSelect_sound segs qOf cacheable c hc x.key x.listFault x.fault
+    simp only [runCached, List.zip_cons_cons, List.mem_cons] at hp
+    rcases hp with rfl | hp
+    · exact hstep.2 rows hr
+    · exact ih _ hstep.1 p hp rows hr
+
+/-- **C36 (faults + result cache, histories).** For every history of queries over a segment set
+with sound statistics, each hit by an arbitrary fault oracle, through the caching handler
+(starting from any sound cache, e.g. the empty one or one that lost entries to TTL / eviction):
+every answer that completes — computed or served from the cache — is exactly the direct filtering
+of all the topic's records.  A faulted query never poisons a later one. -/
+theorem _root_.KafVerif.C36.cached_ok_eq_direct {κ : Type} [DecidableEq κ] (segs : List SegRef) (qOf : κ → Query)
+    (cacheable : κ → Bool) (hs : ∀ s ∈ segs, StatsSound s) (hp : ∀ s ∈ segs, PartitionSound s)
+    (hl : ∀ k, 0 < (qOf k).limit) (ops : List (FQuery κ)) (c : List (κ × List Rec)) (hc : CacheSound segs qOf c) :
+    ∀ p ∈ ops.zip (runCached segs qOf cacheable ops c), ∀ rows, p.2 = some rows →
+      rows = direct (qOf p.1.key) segs := by
+  intro p hp' rows hr
+  rw [runCached_sound segs qOf cacheable ops c hc p hp' rows hr]
+  exact KafVerif.C36.select_eq_direct _ segs hs hp (hl _)
+
+/-- **C36 (faults, end to end).** Over the listing of any well-formed S3 log. -/
+theorem _root_.KafVerif.C36.select_ok_over_listing (objs : List Obj) (hwf : WellFormedObjs objs) (ti : Bool)
+    (q : Query) (hl : 0 < q.limit) (lf : Bool) (fault : Nat → Bool) (rows : List Rec)
+    (h : selectF q (listCompleted objs ti) lf fault = some rows) : rows = direct q (listCompleted objs ti) :=
+  KafVerif.C36.select_ok_eq_direct q _ (fun s hs => (KafVerif.C36.listing_sound objs hwf ti s hs).1)
+    (fun s hs => (KafVerif.C36.listing_sound objs hwf ti s hs).2) hl lf fault rows h
+
+/-! non-vacuity: `okSegs` (sound, shown above); a Decode fault on segment 1 fails an unbounded query,
+is not reached by `LIMIT 2`, is not a candidate for `_partition = 1`; a listing fault fails everything -/
+example : selectF ⟨0, none, none, none, none, none, 100, 0, none⟩ okSegs false (fun i => i == 1) = none := by decide
+example : selectF ⟨0, none, none, none, none, none, 2, 0, none⟩ okSegs false (fun i => i == 1) =
+    some [⟨0, 0, 0, 10⟩, ⟨0, 0, 1, 12⟩] := by decide
+example : selectF ⟨0, some 1, none, none, none, none, 100, 0, none⟩ okSegs false (fun i => i == 1) =
+    some [⟨2, 1, 0, 50⟩] := by decide
+example : selectF ⟨0, none, none, none, none, none, 100, 0, some true⟩ okSegs true (fun _ => false) = none := by decide
+/-- what the seeded change C36-r2-2 (skip the segment, go on) would answer is NOT the direct result -/
+example : select ⟨0, none, none, none, none, none, 100, 0, none⟩ (okSegs.eraseIdx 1) ≠
+    direct ⟨0, none, none, none, none, none, 100, 0, none⟩ okSegs := by decide
+/-- a history: the faulted first attempt fails, the clean retry is computed and cached, the third is a cache
+hit although its `Decode` would fail -/
+example : runCached okSegs (fun (_ : Nat) => ⟨0, none, none, none, some 10, some 13, 100, 0, none⟩) (fun _ => true)
+    [⟨7, false, fun i => i == 1⟩, ⟨7, false, fun _ => false⟩, ⟨7, false, fun i => i == 0⟩] [] =
+    [none, some [⟨0, 0, 0, 10⟩, ⟨0, 0, 1, 12⟩, ⟨0, 0, 2, 11⟩, ⟨1, 0, 3, 12⟩, ⟨1, 0, 4, 13⟩],
+     some [⟨0, 0, 0, 10⟩, ⟨0, 0, 1, 12⟩, ⟨0, 0, 2, 11⟩, ⟨1, 0, 3, 12⟩, ⟨1, 0, 4, 13⟩]] := by decide
 
 end KafVerif.SqlFilter
